@@ -182,6 +182,52 @@ pub fn handle(op: &str, req: &Value) -> Option<Value> {
             let rec_tail: Vec<(u64, u64)> = rec.iter().copied().filter(|e| e.1 >= lo).collect();
             json!({"memory_log": mem_log, "recovered_log": rec, "differs": rec_tail != mem_log, "detail": detail})
         },
+        "raft_node_restart" => {
+            // node backed by a real WAL that already holds its (term, vote); one handler call; restart; compare
+            use tensor_chain::raft_wal::{RaftRecoveryState, RaftWal, RaftWalEntry};
+            let pre = &req["pre"];
+            let dir = std::env::var("VERIF_BUILD").unwrap_or_else(|_| "/verif/.build".into());
+            let dir = std::path::PathBuf::from(dir).join("replay-tmp").join(format!("n{}-{}", std::process::id(),
+                std::time::SystemTime::now().duration_since(std::time::UNIX_EPOCH).map(|d| d.as_nanos()).unwrap_or(0)));
+            let _ = std::fs::create_dir_all(&dir);
+            let wal_path = dir.join("node.wal");
+            {
+                let mut w = RaftWal::open(&wal_path).unwrap();
+                let vote = if pre["voted_for"].is_null() { None } else { Some(sid(&pre["voted_for"])) };
+                w.append(&RaftWalEntry::TermAndVote { term: pre["term"].as_u64().unwrap_or(1), voted_for: vote }).unwrap();
+            }
+            let mk = || {
+                let t: Arc<MemoryTransport> = Arc::new(MemoryTransport::new("n1".to_string()));
+                let mut cfg = RaftConfig::default();
+                cfg.enable_fast_path = false;
+                cfg.auto_heartbeat = false;
+                RaftNode::with_wal("n1".to_string(), vec!["p1".into(), "p2".into()], t, cfg, &wal_path)
+            };
+            let (mem_term, mem_vote);
+            {
+                let node = match mk() { Ok(n) => n, Err(e) => return Some(json!({"error": e.to_string()})) };
+                let m = &req["msg"];
+                match req["node_level"].as_str().unwrap_or("") {
+                    "request_vote" => {
+                        let rv = RequestVote { term: m["rv.0"].as_u64().unwrap_or(0), candidate_id: sid(&m["rv.1"]), last_log_index: m["rv.2"].as_u64().unwrap_or(0),
+                            last_log_term: m["rv.3"].as_u64().unwrap_or(0), state_embedding: SparseVector::new(0) };
+                        let _ = node.handle_message(&"p1".to_string(), &Message::RequestVote(rv));
+                    },
+                    "start_election" => node.start_election(),
+                    _ => {
+                        let ae = AppendEntries { term: m["ae.0"].as_u64().unwrap_or(0), leader_id: sid(&m["ae.1"]), prev_log_index: m["ae.2"].as_u64().unwrap_or(0),
+                            prev_log_term: m["ae.3"].as_u64().unwrap_or(0), entries: vec![], leader_commit: m["ae.5"].as_u64().unwrap_or(0), block_embedding: None };
+                        let _ = node.handle_message(&"p1".to_string(), &Message::AppendEntries(ae));
+                    },
+                }
+                mem_term = node.current_term();
+                mem_vote = node.verif_log_and_vote().1;
+            }
+            let rec = RaftWal::open(&wal_path).ok().and_then(|w| RaftRecoveryState::from_wal(&w).ok());
+            let _ = std::fs::remove_dir_all(&dir);
+            let (rt, rv_) = rec.map(|r| (r.current_term, r.voted_for)).unwrap_or((0, None));
+            json!({"memory": {"term": mem_term, "vote": mem_vote}, "recovered": {"term": rt, "vote": rv_}, "violates": rt != mem_term || rv_ != mem_vote})
+        },
         "raft_vote_stability" => {
             use tensor_chain::network::{PreVoteResponse, TimeoutNow};
             let node = build(req);
